@@ -66,6 +66,9 @@ func fill(d *Desc, v *Val, rv reflect.Value) error {
 	if v == nil {
 		return nil
 	}
+	if p, ok := Pool(d.K); ok {
+		return fill(p.Under, v, rv)
+	}
 	switch {
 	case d.K == "bool":
 		rv.SetBool(v.B)
@@ -165,4 +168,43 @@ func fill(d *Desc, v *Val, rv reflect.Value) error {
 		return fmt.Errorf("tv.fill: unknown kind %q", d.K)
 	}
 	return nil
+}
+
+// WalkVals calls f for every (description, value) pair of a value tree,
+// following interface values into their dynamic descriptions.
+func WalkVals(d *Desc, v *Val, f func(d *Desc, v *Val)) {
+	if d == nil || v == nil {
+		return
+	}
+	f(d, v)
+	if _, ok := Pool(d.K); ok {
+		return
+	}
+	switch d.K {
+	case "any":
+		if v.Dyn != nil && len(v.Elems) > 0 {
+			WalkVals(v.Dyn, &v.Elems[0], f)
+		}
+	case "ptr":
+		if len(v.Elems) > 0 {
+			WalkVals(d.Elem, &v.Elems[0], f)
+		}
+	case "slice", "array":
+		for i := range v.Elems {
+			WalkVals(d.Elem, &v.Elems[i], f)
+		}
+	case "map":
+		for i := range v.Elems {
+			if i < len(v.Keys) {
+				WalkVals(d.Key, &v.Keys[i], f)
+			}
+			WalkVals(d.Elem, &v.Elems[i], f)
+		}
+	case "struct":
+		for i := range d.Fields {
+			if i < len(v.Elems) {
+				WalkVals(d.Fields[i].T, &v.Elems[i], f)
+			}
+		}
+	}
 }
